@@ -1,0 +1,1 @@
+//! Hooks owned by property C15 (feature `verif-hooks`).
